@@ -16,10 +16,11 @@ WORDS = ["Readme", "Lots of stuff", "a b", "src", "x", "Data & more", "caf\xe9",
 LOCAL = ["README", "docs", "docs/a.txt", "inner.txt", "pics", "page.html", "data.tar.gz", "nothere", "sub/deep.txt"]
 
 
-def gen_map(rng, depth_dir):
-    """-> (bytes of the gophermap, list of (kind, fields) describing each line for the reference reader)"""
+def gen_map(rng, depth_dir, big=False):
+    """-> (bytes of the gophermap, list of (kind, fields) describing each line for the reference reader)
+    big: several hundred lines, well beyond any 20 KiB read-ahead"""
     lines = []
-    n = rng.randint(1, 9)
+    n = rng.randint(1, 9) if not big else rng.randint(1400, 1800)
     for _ in range(n):
         k = rng.random()
         if k < 0.2:
@@ -105,7 +106,7 @@ def run(ctx):
         nmaps = ctx.n(60, 1200)
         for i in range(nmaps):
             d = rng.choice(dirs)
-            data = gen_map(rng, d)
+            data = gen_map(rng, d, big=(i == 1))
             tree.write(os.path.join(d, "gophermap"), data)
             has_abs = rng.random() < 0.3
             abs_path = tree.path(os.path.join(d, ".abstract"))
